@@ -20,6 +20,9 @@ def strip(tr):
 
 def validate(chk, traces, what):
     """-> (asis_missing, own_missing, fails) from chunked parallel TLC batch runs of LifeTrace (1-based trace ids)."""
+    if L.RECORDER_BROKEN:
+        chk.drift('%s: the generated ts_props accessors are written differently from the model (their events cannot be projected): '
+                  'accessor-level trace validation is vacuous for this run, the solo-response oracle still applies' % what)
     if not traces:
         return set(), set(), {}
     nchunks = max(1, min(8, len(traces) // 50 or 1))
